@@ -55,6 +55,8 @@ func c17Cmp(agg, op string, lit float64) c17Pred {
 			return x > lit
 		case "<":
 			return x < lit
+		case "<=":
+			return x <= lit
 		case "=":
 			return x == lit
 		}
@@ -77,6 +79,9 @@ func c17Preds() []c17Pred {
 		}}
 	}
 	out = append(out, comb("AND", base[0], base[5]), comb("OR", base[2], base[6]), comb("AND", base[1], base[4]), comb("OR", base[5], base[3]))
+	// the same aggregate call mentioned twice (two-sided threshold, range)
+	out = append(out, comb("OR", c17Cmp("sum(v)", ">=", 5), c17Cmp("sum(v)", "<", 2)), comb("AND", c17Cmp("max(v)", ">=", 2), c17Cmp("max(v)", "<=", 2)),
+		comb("OR", c17Cmp("count(*)", "=", 3), c17Cmp("count(*)", "=", 1)))
 	// AND binds tighter than OR
 	out = append(out, c17Pred{base[0].SQL + " AND " + base[5].SQL + " OR " + base[2].SQL, func(vs []ref.Val) bool {
 		return base[0].Eval(vs) && base[5].Eval(vs) || base[2].Eval(vs)
@@ -297,7 +302,7 @@ func (c17) Run(u fw.Unit) fw.Result {
 func (c17) Describe(tier string) fw.Description {
 	return fw.Description{
 		Level: "model_checking",
-		Rule: "13 TRIGGER WHEN predicates (one comparison over count(*), count(v), sum, avg, min, max; AND / OR of two; mixed AND-OR precedence; selected and unselected aggregates) x all row sequences of length 1..L over 2 groups x v in {1,2,3,NULL} on the real engine (eager deterministic schedule; sequences of length <= 3 also with 1.5 s of virtual time after every row); oracle: per group, fire exactly at the rows where the predicate holds on the aggregates since the last fire, result = count/sum/avg over exactly those rows plus the group column, then restart; non-trivial = at least one expected fire",
+		Rule: "16 TRIGGER WHEN predicates (one comparison over count(*), count(v), sum, avg, min, max; AND / OR of two, also of the same aggregate twice; mixed AND-OR precedence; selected and unselected aggregates) x all row sequences of length 1..L over 2 groups x v in {1,2,3,NULL} on the real engine (eager deterministic schedule; sequences of length <= 3 also with 1.5 s of virtual time after every row); oracle: per group, fire exactly at the rows where the predicate holds on the aggregates since the last fire, result = count/sum/avg over exactly those rows plus the group column, then restart; non-trivial = at least one expected fire",
 		Bounds:      map[string]any{"max_len": map[string]int{"quick": 4, "thorough": 6}, "groups": 2, "values": []string{"1", "2", "3", "NULL"}},
 		Assumptions: []string{"a predicate over an aggregate that is NULL (no usable input) is not true"},
 	}
